@@ -58,6 +58,8 @@ fn bases() -> &'static Vec<Base> {
                             MElem::Path { layer: 3, datatype: 4, xy: vec![(0, 0), (10, 0), (10, 10)], path_type: Some(4), width: Some(6), begin_extn: Some(3), end_extn: Some(5), c: c.clone() },
                             MElem::Text { string: "lbl".into(), layer: 5, texttype: 6, xy: (1, 2), presentation: Some((0, 5)), path_type: Some(1), width: Some(-4), strans: tr.clone(), c: c.clone() },
                             MElem::Sref { name: "leaf".into(), xy: (7, 8), strans: tr.clone(), c: c.clone() },
+                            // the identity spelled out: MAG 1.0 and ANGLE 0.0 are records like any other
+                            MElem::Sref { name: "leaf".into(), xy: (9, 8), strans: Some(crate::gen::gds::MStrans { reflected: false, abs_mag: false, abs_angle: false, mag: Some(1.0f64.to_bits()), angle: Some(0.0f64.to_bits()) }), c: MCommon::default() },
                             MElem::Aref { name: "leaf".into(), xy: [(0, 0), (20, 0), (0, 30)], cols: 2, rows: 3, strans: tr.clone(), c: c.clone() },
                             MElem::Node { layer: 7, nodetype: 8, xy: vec![(1, 1), (2, 2)], c: c.clone() },
                             MElem::Box { layer: 9, boxtype: 10, xy: [(0, 0), (1, 0), (1, 1), (0, 1), (0, 0)], c: c.clone() },
@@ -67,6 +69,25 @@ fn bases() -> &'static Vec<Base> {
             };
             let enc = S::encode(&m, &S::EncOpts::default());
             v.push(Base { name: "generated-every-optional-record".to_string(), bytes: enc.out, offsets: enc.offsets });
+        }
+        // one stream whose records grow and shrink in size: XY lists of 520, 600, 700, 1100, 900 and 650 points and
+        // strings of 4200, 5000 and 4600 bytes, in that order (a reader that re-uses a buffer has to grow it, and
+        // to notice when what is there is too small)
+        {
+            let d = [1i16; 12];
+            let c = MCommon::default();
+            let mut elems = vec![];
+            for (k, n) in [520usize, 600, 700, 1100, 900, 650].iter().enumerate() {
+                let mut xy: Vec<(i32, i32)> = (0..*n as i32).map(|i| (i * 3, (i * 7) % 11 + k as i32)).collect();
+                xy.push(xy[0]);
+                elems.push(MElem::Boundary { layer: k as i16, datatype: 0, xy, c: c.clone() });
+            }
+            for (k, n) in [4200usize, 5000, 4600].iter().enumerate() {
+                elems.push(MElem::Text { string: "s".repeat(*n), layer: 9, texttype: k as i16, xy: (0, 0), presentation: None, path_type: None, width: None, strans: None, c: c.clone() });
+            }
+            let m = MLib { name: "grow".into(), version: 3, dates: d, units: (1e-3f64.to_bits(), 1e-9f64.to_bits()), structs: vec![MStruct { name: "g".into(), dates: d, elems }] };
+            let enc = S::encode(&m, &S::EncOpts::default());
+            v.push(Base { name: "generated-large-growing-records".to_string(), bytes: enc.out, offsets: enc.offsets });
         }
         // one stream with a large (but legal) record: a boundary of 4100 points, whose XY record
         // alone is 32 KB, so that doubling it goes beyond what one record can hold
